@@ -11,7 +11,7 @@ def boundary(a, v):
     """non-trivial: a rule evaluated within one unit of its bound, or on an absent / empty value"""
     if hg.is_absent(v) or v["n"] == 0 or v["cn"] == 0:
         return True
-    if a["rule"] in ("min", "max", "xmin", "xmax", "minlen", "maxlen"):
+    if a["rule"] in ("min", "max", "xmin", "xmax", "minlen", "maxlen", "range", "xrange", "lenrange"):
         return min(abs(v["n"] - hg.LO), abs(v["n"] - hg.HI)) <= 1
     if a["rule"] in ("cminlen", "cmaxlen"):
         return min(abs(v["cn"] - hg.LO), abs(v["cn"] - hg.HI)) <= 1
